@@ -597,8 +597,10 @@ package prunner
 //@   lockmode none
 //@   ensures  [T] Tjobs()
 //@   ensures  [gate] old(r.isShuttingDown) ==> r.isShuttingDown
-//@   modifies map(map[uuid.UUID]*PipelineJob), map(map[string][]*PipelineJob), mem(*PipelineJob), $clock, $logsRemoved, $logsRemoveFailed, $savedData, $saveCalls, $passes, $wgWaited, $wgTokens, $passDom
+//@   modifies map(map[uuid.UUID]*PipelineJob), map(map[string][]*PipelineJob), mem(*PipelineJob), $clock, $logsRemoved, $logsRemoveFailed, $savedData, $saveCalls, $passes, $wgWaited, $wgTokens, $passDom, $finalSaveDone
 //@   at call (*PipelineRunner).SaveToStore#1: assert [C11.finalSave] $wgWaited
+//@   at after (*PipelineRunner).SaveToStore#1: ghost $finalSaveDone := true
+//@   ensures  [C11.finalSaved] $finalSaveDone
 
 //@ pure loadedTaskOf(t *jobTask, e *store.PersistedTask) bool = t.Name == e.Name && t.Script == e.Script && t.DependsOn == e.DependsOn && t.AllowFailure == e.AllowFailure && t.Status == e.Status && t.Start == e.Start && t.End == e.End && t.Skipped == e.Skipped && t.ExitCode == e.ExitCode && t.Errored == e.Errored && (e.Error == nil ==> t.Error == nil)
 //@ func buildJobFromPersistedJob
@@ -645,6 +647,8 @@ package prunner
 
 // the persist loop owes the store a save for every request it takes from the channel
 //@ ghost $saveOwed scalar Bool
+// the deferred closure of Shutdown has called SaveToStore
+//@ ghost $finalSaveDone scalar Bool
 //@ func NewPipelineRunner
 //@   safety
 //@   lockmode any
